@@ -160,11 +160,15 @@ impl Peer {
 
     /// Sends a message to the peer
     pub fn send(&self, message: &Message) -> Result<(), ChainGangError> {
+        #[cfg(feature = "verif-hooks")]
+        crate::util::verif_hooks::sync_point("peer.send.test:pre");
         if !self.connected.load(Ordering::Relaxed) {
             return Err(ChainGangError::IllegalState("Not connected".to_string()));
         }
 
         let mut io_error: Option<io::Error> = None;
+        #[cfg(feature = "verif-hooks")]
+        crate::util::verif_hooks::sync_point("peer.send.write:pre");
         {
             let mut tcp_writer = self.tcp_writer.lock().unwrap();
             let mut tcp_writer = match tcp_writer.as_mut() {
@@ -192,10 +196,14 @@ impl Peer {
 
     /// Disconects and disables the peer
     pub fn disconnect(&self) {
+        #[cfg(feature = "verif-hooks")]
+        crate::util::verif_hooks::sync_point("peer.disconnect.swap:pre");
         self.connected.swap(false, Ordering::Relaxed);
 
         info!("{:?} Disconnecting", self);
 
+        #[cfg(feature = "verif-hooks")]
+        crate::util::verif_hooks::sync_point("peer.disconnect.shutdown:pre");
         let mut tcp_stream = self.tcp_writer.lock().unwrap();
         if let Some(tcp_stream) = tcp_stream.as_mut() {
             if let Err(e) = tcp_stream.shutdown(Shutdown::Both) {
@@ -203,6 +211,8 @@ impl Peer {
             }
         }
 
+        #[cfg(feature = "verif-hooks")]
+        crate::util::verif_hooks::sync_point("peer.disconnect.event:pre");
         if let Some(peer) = self.strong_self() {
             self.disconnected_event.next(&PeerDisconnected { peer });
         }
@@ -262,6 +272,8 @@ impl Peer {
         let tpeer = peer.clone();
 
         thread::spawn(move || {
+            #[cfg(feature = "verif-hooks")]
+            let _exit = crate::util::verif_hooks::ExitPoint("peer.recv:exit");
             let mut tcp_reader = match tpeer.handshake(version, filter) {
                 Ok(tcp_stream) => tcp_stream,
                 Err(e) => {
@@ -292,6 +304,8 @@ impl Peer {
 
                 // Always check the connected flag right after the blocking read so we exit right away,
                 // and also so that we don't mistake errors with the stream shutting down
+                #[cfg(feature = "verif-hooks")]
+                crate::util::verif_hooks::sync_point("peer.recv.test:pre");
                 if !tpeer.connected.load(Ordering::Relaxed) {
                     return;
                 }
@@ -304,12 +318,16 @@ impl Peer {
                             debug!("{:?} Read {:#?}", tpeer, message);
                             partial = None;
 
+                            #[cfg(feature = "verif-hooks")]
+                            crate::util::verif_hooks::sync_point("peer.recv.handle:pre");
                             if let Err(e) = tpeer.handle_message(&message) {
                                 error!("{:?} Error handling message: {:?}", tpeer, e);
                                 tpeer.disconnect();
                                 return;
                             }
 
+                            #[cfg(feature = "verif-hooks")]
+                            crate::util::verif_hooks::sync_point("peer.recv.publish:pre");
                             tpeer.messages.next(&PeerMessage {
                                 peer: tpeer.clone(),
                                 message,
